@@ -175,3 +175,23 @@ Definition strictly_older_b (t : table) : bool :=
 (* cache of the lowest PID is fresh: empty, or the lowest listed PID *)
 Definition cache_fresh_b (t : table) (cache : option Z) : bool :=
   match cache with None => true | Some l => is_root_b t l end.
+
+(* ---------------------------------------------------------------- big tables from a compact seed
+   (depth and width far beyond an interpreter's recursion limit; the harness writes the same
+   tables into the fake /proc from the same seed) *)
+Fixpoint zseq (a : Z) (n : nat) : list Z :=
+  match n with O => [] | S m => a :: zseq (a + 1) m end.
+(* chain n: 1 <- 2 <- ... <- n   (PID i has parent i-1 and start tick i; PID 1 is the root) *)
+Definition chain_entry (i : Z) : kproc := {| kp_pid := i; kp_ppid := i - 1; kp_start := i |}.
+Definition gen_chain (n : nat) : table := map chain_entry (zseq 1 n).
+(* star n: the root 1 with the n children 2 .. n+1 *)
+Definition gen_star (n : nat) : table :=
+  {| kp_pid := 1; kp_ppid := 0; kp_start := 1 |}
+  :: map (fun i => {| kp_pid := i; kp_ppid := 1; kp_start := i |}) (zseq 2 n).
+(* comb d w: the chain 1 .. d, every node of which has w more children that are leaves *)
+Definition gen_comb (d w : nat) : table :=
+  gen_chain d ++
+  flat_map (fun i => map (fun j => {| kp_pid := Z.of_nat d + (i - 1) * Z.of_nat w + j; kp_ppid := i; kp_start := i |})
+                         (zseq 1 w)) (zseq 1 d).
+(* the ancestors of PID m+1 in a chain: m, m-1, .., 1 *)
+Fixpoint down (m : nat) : list Z := match m with O => [] | S k => Z.of_nat (S k) :: down k end.
